@@ -1,7 +1,7 @@
-// @unit id=v_connection props=C09,C15,C17,C07,C08 tier=quick
+// @unit id=v_connection props=C09,C15,C17,C07,C14,C08 tier=quick
 // Verus contracts on the REAL bodies of src/proto/connection.rs (extracted on every run): the error-containment and
 // shutdown plumbing of DynConnection — `handle_poll2_result`, `handle_go_away`, `go_away`, `go_away_now`,
-// `go_away_now_data`, `go_away_from_user`, and `Connection::take_error`.
+// `go_away_now_data`, `go_away_from_user`, `recv_frame`.
 //
 // C09 containment:  a STREAM error raised while reading a frame is answered with exactly one RST_STREAM(id, code) for
 //   that stream and the connection carries on (state untouched, no GOAWAY, no other stream failed); a reset that came
@@ -102,6 +102,7 @@ pub struct DynStreams {
     pub resets: Ghost<Seq<(StreamId, Reason)>>,       // send_reset(id, reason) calls  => RST_STREAM frames
     pub errors: Ghost<Seq<Error>>,                    // handle_error(e) calls         => every stream failed with e
     pub go_aways: Ghost<Seq<StreamId>>,               // send_go_away(id) calls        => receive cut-off lowered
+    pub calls: Ghost<Seq<Call>>,                      // recv_*(frame) calls, in order
 }
 impl DynStreams {
     pub fn last_processed_id(&self) -> (r: StreamId) ensures r == self.last_processed_id { self.last_processed_id }
@@ -127,11 +128,74 @@ impl DynStreams {
     { unimplemented!() }
 }
 
+/// frame::Frame as the connection layer sees it: the payloads of stream frames are opaque tokens here
+#[derive(PartialEq, Eq, Structural, Clone, Copy, Debug)]
+pub enum Frame { Data(u8), Headers(u8), Priority(u8), PushPromise(u8), Settings(u8), Ping(u8), GoAway(FGoAway), WindowUpdate(u8), Reset(u8) }
+
+#[derive(PartialEq, Eq, Structural, Clone, Copy, Debug)]
+pub enum ReceivedFrame { Settings(u8), Continue, Done }
+
+/// what the connection layer handed to the streams layer, in order
+#[derive(PartialEq, Eq, Structural, Clone, Copy, Debug)]
+pub enum Call { Headers(u8), Data(u8), Reset(u8), PushPromise(u8), GoAway(FGoAway), WindowUpdate(u8), Eof }
+
+impl DynStreams {
+    #[verifier::external_body]
+    pub fn recv_headers(&mut self, frame: u8) -> (r: Result<(), Error>)
+        ensures *final(self) == (DynStreams { calls: Ghost(old(self).calls@.push(Call::Headers(frame))), ..*old(self) }),
+    { unimplemented!() }
+    #[verifier::external_body]
+    pub fn recv_data(&mut self, frame: u8) -> (r: Result<(), Error>)
+        ensures *final(self) == (DynStreams { calls: Ghost(old(self).calls@.push(Call::Data(frame))), ..*old(self) }),
+    { unimplemented!() }
+    #[verifier::external_body]
+    pub fn recv_reset(&mut self, frame: u8) -> (r: Result<(), Error>)
+        ensures *final(self) == (DynStreams { calls: Ghost(old(self).calls@.push(Call::Reset(frame))), ..*old(self) }),
+    { unimplemented!() }
+    #[verifier::external_body]
+    pub fn recv_push_promise(&mut self, frame: u8) -> (r: Result<(), Error>)
+        ensures *final(self) == (DynStreams { calls: Ghost(old(self).calls@.push(Call::PushPromise(frame))), ..*old(self) }),
+    { unimplemented!() }
+    #[verifier::external_body]
+    pub fn recv_window_update(&mut self, frame: u8) -> (r: Result<(), Error>)
+        ensures *final(self) == (DynStreams { calls: Ghost(old(self).calls@.push(Call::WindowUpdate(frame))), ..*old(self) }),
+    { unimplemented!() }
+    #[verifier::external_body]
+    pub fn recv_go_away(&mut self, frame: &FGoAway) -> (r: Result<(), Error>)
+        ensures *final(self) == (DynStreams { calls: Ghost(old(self).calls@.push(Call::GoAway(*frame))), ..*old(self) }),
+    { unimplemented!() }
+    /// Streams::recv_eof: Err only for a poisoned mutex (Inner::recv_eof always returns Ok: unit v_streams)
+    #[verifier::external_body]
+    pub fn recv_eof(&mut self, clear_pending_accept: bool) -> (r: Result<(), ()>)
+        ensures *final(self) == (DynStreams { calls: Ghost(old(self).calls@.push(Call::Eof)), ..*old(self) }), r is Ok,
+    { unimplemented!() }
+}
+
+/// PingPong::recv_ping as the connection sees it (its real body: Kani units pp_recv_ping, pp_ack_consumed_once): the answer
+/// says "shutdown" only when the graceful-shutdown PING was outstanding, and then it no longer is
+#[derive(PartialEq, Eq, Structural, Clone, Copy, Debug)]
+pub struct ReceivedPing { pub shutdown: bool }
+impl ReceivedPing {
+    pub fn is_shutdown(&self) -> (r: bool) ensures r == self.shutdown { self.shutdown }
+}
+pub struct PingPong { pub shutdown_pending: bool }
+impl PingPong {
+    #[verifier::external_body]
+    pub fn recv_ping(&mut self, frame: u8) -> (r: ReceivedPing)
+        ensures r.shutdown ==> old(self).shutdown_pending && !final(self).shutdown_pending, !r.shutdown ==> final(self).shutdown_pending == old(self).shutdown_pending,
+    { unimplemented!() }
+}
+
+impl GoAway {
+    pub fn is_going_away(&self) -> (r: bool) ensures r == (self.going_away_reason is Some) { self.going_away_reason.is_some() }
+}
+
 pub struct DynConnection {
     pub state: State,
     pub go_away: GoAway,
     pub streams: DynStreams,
     pub error: Option<frame::GoAway>,
+    pub ping_pong: PingPong,
 }
 
 impl DynConnection {
@@ -144,7 +208,9 @@ impl DynConnection {
     //@spec     ensures
     //@spec         // C15 graceful: the cut-off the peer is told and the cut-off the receive side applies are the same id
     //@spec         final(self).streams.go_aways@ == old(self).streams.go_aways@.push(id) && final(self).go_away.graceful@ == old(self).go_away.graceful@.push(frame::GoAway { last_stream_id: id, error_code: e }),
-    //@spec         final(self).state == old(self).state && final(self).streams.errors@ == old(self).streams.errors@ && final(self).streams.resets@ == old(self).streams.resets@,
+    //@spec         final(self).state == old(self).state && final(self).error == old(self).error && final(self).ping_pong == old(self).ping_pong,
+    //@spec         final(self).streams == (DynStreams { go_aways: final(self).streams.go_aways, ..old(self).streams }),
+    //@spec         final(self).go_away.now@ == old(self).go_away.now@ && final(self).go_away.from_user@ == old(self).go_away.from_user@,
     //@end
 
     //@extract src/proto/connection.rs DynConnection::go_away_now
@@ -228,6 +294,51 @@ impl DynConnection {
     //@spec                 && (r is Ok ==> kind == io::ErrorKind::UnexpectedEof && old(self).streams.buffer_empty && final(self).state == State::Closed(Reason::NO_ERROR, Initiator::Library))
     //@spec                 && (r is Err ==> r == Err::<(), Error>(Error::Io(kind)) && final(self).state == old(self).state),
     //@spec         },
+    //@end
+}
+
+impl DynConnection {
+    // Dispatch of one received frame (C01 order, C09, C14, C15, C08): every frame goes to exactly the function of the
+    // streams layer that owns it, exactly once, and an error it reports is returned UNCHANGED (so that handle_poll2_result
+    // above sees the real stream id / code / initiator); SETTINGS goes back to the caller; a GOAWAY is recorded as the
+    // connection's result after the streams were told; the ACK of the graceful-shutdown PING queues the second GOAWAY with
+    // the real last processed id and NO_ERROR (C15) — the `assert!` "received unexpected shutdown ping" is an obligation,
+    // discharged from I-shutdown below; end of input fails every stream (recv_eof) and reports Done.
+    //@extract src/proto/connection.rs DynConnection::recv_frame
+    //@subst use crate::frame::Frame::*;=>
+    //@subst_re Some\((Headers|Data|Reset|PushPromise|Settings|GoAway|Ping|WindowUpdate|Priority)\(frame\)\) => ==>> Some(Frame::\1(frame)) =>
+    //@subst *self.error = Some(frame);=>self.error = Some(frame);
+    //@subst self.streams.recv_eof(false).expect("mutex poisoned");=>let _e = self.streams.recv_eof(false); assert(_e.is_ok());
+    //@ret r
+    //@spec     requires
+    //@spec         // I-shutdown: the graceful-shutdown PING is only outstanding after the first GOAWAY was queued
+    //@spec         // (Connection::go_away_gracefully: go_away(MAX, NO_ERROR) then ping_shutdown())
+    //@spec         old(self).ping_pong.shutdown_pending ==> old(self).go_away.going_away_reason is Some,
+    //@spec     ensures
+    //@spec         final(self).state == old(self).state,
+    //@spec         match frame {
+    //@spec             Some(Frame::Headers(f)) => final(self).streams.calls@ == old(self).streams.calls@.push(Call::Headers(f)) && final(self).go_away == old(self).go_away && final(self).error == old(self).error,
+    //@spec             Some(Frame::Data(f)) => final(self).streams.calls@ == old(self).streams.calls@.push(Call::Data(f)) && final(self).go_away == old(self).go_away && final(self).error == old(self).error,
+    //@spec             Some(Frame::Reset(f)) => final(self).streams.calls@ == old(self).streams.calls@.push(Call::Reset(f)) && final(self).go_away == old(self).go_away && final(self).error == old(self).error,
+    //@spec             Some(Frame::PushPromise(f)) => final(self).streams.calls@ == old(self).streams.calls@.push(Call::PushPromise(f)) && final(self).go_away == old(self).go_away && final(self).error == old(self).error,
+    //@spec             Some(Frame::WindowUpdate(f)) => final(self).streams.calls@ == old(self).streams.calls@.push(Call::WindowUpdate(f)) && final(self).go_away == old(self).go_away && final(self).error == old(self).error,
+    //@spec             Some(Frame::Settings(f)) => r == Ok::<ReceivedFrame, Error>(ReceivedFrame::Settings(f)) && *final(self) == *old(self),
+    //@spec             Some(Frame::Priority(_)) => r == Ok::<ReceivedFrame, Error>(ReceivedFrame::Continue) && *final(self) == *old(self),
+    //@spec             // C15: the peer's GOAWAY reaches the streams first; it becomes the connection's result only if they accepted it
+    //@spec             Some(Frame::GoAway(g)) => final(self).streams.calls@ == old(self).streams.calls@.push(Call::GoAway(g)) && final(self).go_away == old(self).go_away
+    //@spec                 && (r is Ok ==> final(self).error == Some(g)) && (r is Err ==> final(self).error == old(self).error),
+    //@spec             // C14/C15: PING; the shutdown ACK queues the final GOAWAY(last processed id, NO_ERROR) and lowers the receive cut-off to it
+    //@spec             Some(Frame::Ping(_)) => r == Ok::<ReceivedFrame, Error>(ReceivedFrame::Continue) && final(self).streams.calls@ == old(self).streams.calls@ && final(self).error == old(self).error
+    //@spec                 && (final(self).go_away.graceful@ == old(self).go_away.graceful@
+    //@spec                     || (old(self).ping_pong.shutdown_pending && !final(self).ping_pong.shutdown_pending
+    //@spec                         && final(self).go_away.graceful@ == old(self).go_away.graceful@.push(frame::GoAway { last_stream_id: old(self).streams.last_processed_id, error_code: Reason::NO_ERROR })
+    //@spec                         && final(self).streams.go_aways@ == old(self).streams.go_aways@.push(old(self).streams.last_processed_id))),
+    //@spec             // C07: end of input: every stream is failed, and the caller is told the read side is done
+    //@spec             None => r == Ok::<ReceivedFrame, Error>(ReceivedFrame::Done) && final(self).streams.calls@ == old(self).streams.calls@.push(Call::Eof),
+    //@spec         },
+    //@spec         // errors come from the streams layer only, and pass through unchanged (nothing else can fail here)
+    //@spec         r is Err ==> (frame matches Some(Frame::Headers(_))) || (frame matches Some(Frame::Data(_))) || (frame matches Some(Frame::Reset(_)))
+    //@spec             || (frame matches Some(Frame::PushPromise(_))) || (frame matches Some(Frame::WindowUpdate(_))) || (frame matches Some(Frame::GoAway(_))),
     //@end
 }
 
